@@ -38,6 +38,8 @@ def run(ctx, res):
     RR.rule_loop_until_empty(prog, res, "video_sink_thread", "last")
     RR.rule_wiring(prog, res)
     RR.rule_frame_counter(prog, res)
+    RR.rule_consume(prog, res, "video_sink_thread", "append")
+    RR.rule_consume(prog, res, "process_data", "iterate")
     # the channel clauses every flush loop depends on (anchored in channel.c)
     rule_empty_drained(prog, res)
     rule_cursor_pair(prog, res, LockAnalysis(prog))
@@ -47,3 +49,4 @@ def run(ctx, res):
     res.require_min("LOOP-UNTIL", 1)
     res.require_min("R-WIRING", 6)
     res.require_min("R-FRAME-ID", 2)
+    res.require_min("R-CONSUME", 3)
